@@ -204,14 +204,14 @@ def predicate(c, o, st=None):
     return bad
 
 
-def run_impl_parallel(jcases, groups=12):
+def run_impl_parallel(jcases, groups=12, binname="addrloops"):
     n = len(jcases)
     groups = max(1, min(groups, n))
     chunks = [list(range(g, n, groups)) for g in range(groups)]
     outs = [None] * n
 
     def work(ix):
-        res = common.run_impl("addrloops", [jcases[i] for i in ix], "dev", shards=1, timeout=600)
+        res = common.run_impl(binname, [jcases[i] for i in ix], "dev", shards=1, timeout=600)
         for i, r in zip(ix, res):
             outs[i] = r
 
